@@ -535,8 +535,9 @@ impl MigrationState {
             // (see the constant). The scanned target is `tip + 1`, so `tip - boundary >= DEPTH`
             // is `boundary + DEPTH < scanned`.
             Some(boundary) => {
-                u32::from(boundary) + scheduling::PROVABLE_ANCHOR_DEPTH
-                    < u32::from(targets.scanned())
+                // (`BlockHeight` addition saturates, so a boundary within `DEPTH` of the
+                // maximum height is simply never settled rather than overflowing.)
+                boundary + scheduling::PROVABLE_ANCHOR_DEPTH < targets.scanned()
             }
             // A preparation: prove-ready once its schedule is due, at the served target. It
             // anchors to a fresh checkpoint at the tip when proved, so no boundary depth applies.
